@@ -39,13 +39,35 @@ def run(R):
                 gens.append((x, c))
     R.ob("C18-R1", "generator-found", "the fresh-name generator builds names with format!", bool(gens), where=ren.where())
     if ren.nargs >= 3:
-        # some parameter beyond (rule, counter) must be consulted by a membership test on the generating path
+        # the extra parameter(s) must reach a membership test inside the generator
+        def follow(c):
+            b2 = prog.bodies.get(c.key)
+            return b2 if b2 is not None and b2.crate == "datalog" else None
+        T2 = Taint(prog, ren, follow_calls=follow)
+        for i in range(3, ren.nargs + 1):
+            T2.seed(ren, i, "avoid")
+        T2.run()
         checks = []
         for x in fam:
             for c in x.calls():
-                if c.name() in ("contains", "contains_key", "get", "any", "iter"):
-                    checks.append((x, c))
-        R.ob("C18-R1", "generator-checks", "the generator tests candidate names against the names to avoid", bool(checks), where=ren.where())
+                if c.name() in ("contains", "contains_key", "get", "any") and c.args and "avoid" in T2.op_taint(x, c.args[0]):
+                    # the outcome must control a branch
+                    used = any(t["t"] == "switch" and F.op_local(t["discr"]) is not None and
+                               x.alias_root(t["discr"]) in (c.dest["l"],) for bb, t in x.terms())
+                    if not used:
+                        for bb, t in x.terms():
+                            if t["t"] == "switch":
+                                dl = F.op_local(t["discr"])
+                                d = x.single_def(dl) if dl is not None else None
+                                if d and d[0] == "assign" and d[3]["rv"] in ("use", "unop", "discriminant"):
+                                    src = d[3].get("op") or d[3].get("a") or {"k": "copy", "pl": d[3].get("pl")}
+                                    pl = F.op_place(src) if src.get("pl") else None
+                                    if pl is not None and pl["l"] == c.dest["l"]:
+                                        used = True
+                    if used:
+                        checks.append((x, c))
+        R.ob("C18-R1", "generator-checks", "the generator tests candidate names against the names to avoid", bool(checks), where=ren.where(),
+             detail=None if checks else "the names to avoid are passed in but never tested")
 
     # ---- R2
     got = cover.consulted_fields(prog, helper, RULE)
